@@ -11,7 +11,7 @@
 //     each call (runtime.MemStats.TotalAlloc) and appends one line per input to a log file,
 //   - restarts the child after the input that killed it (out of memory, fatal error, per-input timeout),
 //   - applies the property oracle: panic / allocation above the part's budget / death / timeout = failure with a
-//     stable signature `<kind>:<part>:<entry>[:<function>]`,
+//     stable signature `panic:<part>:<function>` or `<alloc-bomb|timeout|crash>:<part>:<entry>`,
 //   - optionally writes the inputs and observations as Coq cases for YF.C12_Check.
 package c12h
 
@@ -85,16 +85,20 @@ type Part struct {
 	// Coq correspondence (optional).
 	CoqImports []string
 	CoqType    string
-	CoqChecker func(flags map[string]bool) string                  // checker expression, given the measured flags
+	CoqChecker func(flags map[string]bool) string                // checker expression, given the measured flags
 	CoqCase    func(in *Input, r *Result) (term string, ok bool) // ok=false: input outside the modelled fragment
-	MaxCoq     int                                                 // at most this many cases in the case file
+	MaxCoq     int                                               // at most this many cases in the case file (quick tier; thorough: 4x)
 	// Witness inputs of the refutation lemmas: flag name -> index into the generated inputs is not stable, so a
 	// witness is an Input of its own; flag = true when the implementation neither panics nor exceeds the budget.
 	Witnesses func(seeds []Seed) map[string]Input
 	// FlagOf (optional) overrides how a witness result becomes a flag (default: no panic, no death, within budget).
 	FlagOf func(name string, r *Result, def bool) bool
-	VmemKB    uint64 // ulimit -v for the child (default 4 GiB)
-	PerInput  time.Duration
+	VmemKB uint64 // ulimit -v for the child (default 4 GiB)
+	// Fuzz (optional, thorough tier): builds an Input from fuzzer-chosen bytes and a selector; the package's harness
+	// file must then define `func FuzzVerifC12(f *testing.F) { c12h.FuzzBody(f, part) }`.
+	Fuzz     func(data []byte, sel uint64, seeds []Seed) *Input
+	FuzzTime time.Duration // default 40 s
+	PerInput time.Duration
 }
 
 const (
@@ -358,7 +362,7 @@ func Run(t *testing.T, p *Part) {
 		}
 		sig := class + ":" + p.Name + ":" + in.Entry
 		if class == "panic" {
-			sig += ":" + r.Site
+			sig = "panic:" + p.Name + ":" + r.Site // one signature per crash site, whatever entry point reached it
 		}
 		rep.Fail(sig, fmt.Sprintf("%s on mutation %q: %s", class, in.Label, r.Msg),
 			map[string]interface{}{"part": p.Name, "entry": in.Entry, "mutation": in.Label, "input_len": len(in.Data),
@@ -367,15 +371,24 @@ func Run(t *testing.T, p *Part) {
 	}
 	rep.Sample(map[string]interface{}{"inputs": len(ins), "ran": nRun, "flags": flags})
 
+	// ---- native Go fuzzing (coverage guided), thorough tier only
+	if p.Fuzz != nil && vh.Thorough() {
+		nativeFuzz(t, p, rep, vmem)
+	}
+
 	// ---- Coq cases
 	if p.CoqCase != nil {
 		cases := vh.NewCases("cases_c12_"+strings.ReplaceAll(p.Name, "-", "_"), p.CoqImports, p.CoqType, p.CoqChecker(flags))
 		max := p.MaxCoq
 		if max == 0 {
-			max = 1500
+			max = 500
+		}
+		if vh.Thorough() {
+			max *= 4
 		}
 		seen := map[string]bool{}
 		skipped := 0
+		var terms []string
 		for i := range ins {
 			r := results[i]
 			if r == nil || r.Class == "timeout" || r.Class == "crash" {
@@ -390,8 +403,25 @@ func Run(t *testing.T, p *Part) {
 				continue
 			}
 			seen[term] = true
-			if cases.Len() < max {
-				cases.Add(term)
+			terms = append(terms, term)
+		}
+		// an even sample over the whole input stream (witness probes come first and are always kept)
+		if len(terms) <= max {
+			for _, t := range terms {
+				cases.Add(t)
+			}
+		} else {
+			keep := len(wnames)
+			if keep > len(terms) {
+				keep = len(terms)
+			}
+			for _, t := range terms[:keep] {
+				cases.Add(t)
+			}
+			rest := terms[keep:]
+			n := max - keep
+			for k := 0; k < n; k++ {
+				cases.Add(rest[k*len(rest)/n])
 			}
 		}
 		rep.Note("coq cases: %d written, %d outside the modelled fragment", cases.Len(), skipped)
@@ -629,4 +659,126 @@ func ClassN(class string) (uint64, bool) {
 		return 2, true
 	}
 	return 0, false
+}
+
+// ---------------------------------------------------------------- native fuzzing
+
+// FuzzBody is the body of the package's FuzzVerifC12 target: seeds = the valid files of the part, oracle = no panic
+// (a panic crashes the fuzz worker and is minimised by the fuzzer) and allocation within the part's budget.
+func FuzzBody(f *testing.F, p *Part) {
+	seeds, err := loadSeeds(p)
+	if err != nil {
+		f.Skip("no seeds (run through TestVerif_C12 in the thorough tier)")
+	}
+	for i := range seeds {
+		if len(seeds[i].Data) < 1<<16 {
+			f.Add(seeds[i].Data, uint64(i))
+			f.Add(seeds[i].Data, uint64(i)+7919)
+		}
+	}
+	f.Fuzz(func(t *testing.T, data []byte, sel uint64) {
+		in := p.Fuzz(data, sel, seeds)
+		if in == nil {
+			return
+		}
+		var before, after runtime.MemStats
+		runtime.ReadMemStats(&before)
+		p.Exec(in)
+		runtime.ReadMemStats(&after)
+		if a := after.TotalAlloc - before.TotalAlloc; a > p.Budget(in) {
+			t.Fatalf("alloc-bomb: %d bytes allocated for an input of %d bytes (budget %d), entry %s", a, len(in.Data), p.Budget(in), in.Entry)
+		}
+	})
+}
+
+func repoRootFromCwd() (root, rel string, err error) {
+	cwd, err := os.Getwd()
+	if err != nil {
+		return "", "", err
+	}
+	d := cwd
+	for {
+		if _, e := os.Stat(filepath.Join(d, "go.mod")); e == nil {
+			r, _ := filepath.Rel(d, cwd)
+			return d, r, nil
+		}
+		nd := filepath.Dir(d)
+		if nd == d {
+			return "", "", fmt.Errorf("no go.mod above %s", cwd)
+		}
+		d = nd
+	}
+}
+
+// nativeFuzz builds an instrumented test binary of the current package (same overlay as the running check) and runs
+// FuzzVerifC12 from a scratch directory: corpus, cache and crashers stay under vh.OutDir(), nothing is written to the repository.
+func nativeFuzz(t *testing.T, p *Part, rep *vh.Report, vmem uint64) {
+	root, rel, err := repoRootFromCwd()
+	if err != nil {
+		rep.Note("native fuzzing skipped: %v", err)
+		return
+	}
+	// the overlay file of this harness entry: the one that maps a test file into this package directory
+	var overlay string
+	cands, _ := filepath.Glob(filepath.Join(vh.OutDir(), "overlay_*.json"))
+	for _, c := range cands {
+		b, _ := os.ReadFile(c)
+		if strings.Contains(string(b), filepath.Join(root, rel, "zz_verif_c12")) {
+			overlay = c
+		}
+	}
+	if overlay == "" {
+		rep.Note("native fuzzing skipped: overlay file not found under %s", vh.OutDir())
+		return
+	}
+	bin := filepath.Join(vh.OutDir(), "c12fuzz_"+p.Name+".test")
+	build := exec.Command("go", "test", "-c", "-overlay", overlay, "-vet=off", "-fuzz", "^FuzzVerifC12$", "-o", bin, "./"+rel)
+	build.Dir = root
+	if out, err := build.CombinedOutput(); err != nil {
+		rep.Note("native fuzzing skipped: instrumented build failed: %v: %s", err, tailStr(string(out), 600))
+		return
+	}
+	dir := filepath.Join(vh.OutDir(), "c12fuzz_"+p.Name+"_run")
+	_ = os.RemoveAll(dir)
+	_ = os.MkdirAll(dir, 0o755)
+	ft := p.FuzzTime
+	if ft == 0 {
+		ft = 40 * time.Second
+	}
+	cmd := exec.Command("sh", "-c", fmt.Sprintf(`ulimit -v %d; exec "$0" "$@"`, vmem), bin, "-test.run", "^$", "-test.fuzz", "^FuzzVerifC12$",
+		"-test.fuzztime", ft.String(), "-test.fuzzcachedir", filepath.Join(dir, "cache"), "-test.parallel", "4", "-test.timeout", "0")
+	cmd.Dir = dir
+	out, err := cmd.CombinedOutput()
+	m := regexp.MustCompile(`execs: (\d+)`).FindAllStringSubmatch(string(out), -1)
+	execs := "?"
+	if len(m) > 0 {
+		execs = m[len(m)-1][1]
+	}
+	rep.Note("native fuzzing of %s: %s, %s executions", p.Name, ft, execs)
+	rep.Count("fuzz/runs")
+	if err == nil {
+		return
+	}
+	crashers, _ := filepath.Glob(filepath.Join(dir, "testdata", "fuzz", "FuzzVerifC12", "*"))
+	var body string
+	if len(crashers) > 0 {
+		b, _ := os.ReadFile(crashers[0])
+		body = string(b)
+		if len(body) > 4000 {
+			body = body[:4000]
+		}
+	}
+	kind := "fuzz-crash"
+	if strings.Contains(string(out), "alloc-bomb:") {
+		kind = "fuzz-alloc-bomb"
+	}
+	rep.Fail(kind+":"+p.Name, "native fuzzing found a failing input: "+tailStr(string(out), 1500),
+		map[string]interface{}{"part": p.Name, "crasher_file": body, "how": "go test fuzz corpus file format (go test fuzz v1)"})
+}
+
+func tailStr(s string, n int) string {
+	if len(s) > n {
+		return s[len(s)-n:]
+	}
+	return s
 }
